@@ -11,7 +11,7 @@ for f in os.listdir(src):
     elif os.path.isdir(p):
         shutil.copytree(p, os.path.join(dst, f), dirs_exist_ok=True)
 howto = open(os.path.join(src, 'HOWTO.txt')).read() if os.path.exists(os.path.join(src, 'HOWTO.txt')) else ''
-m = re.search(r'(?:RUST_BACKTRACE=\d\s+)?(?:CARGO_NET_OFFLINE=true\s+)?(cargo test -p [^\n#]+)', howto)
+m = re.search(r'(?:RUST_BACKTRACE=\d\s+)?(?:CARGO_NET_OFFLINE=true\s+)?(cargo test (?:--offline )?-p [^\n#]+)', howto)
 cmd = m.group(1).strip() if m else 'cargo test -p s3s --offline'
 crate = re.search(r'-p (\S+)', cmd).group(1)
 lines = ['#!/bin/bash', '# usage: demo.sh <worktree>   (run after optionally applying patch.diff); exit 0 = demonstration passes',
